@@ -507,6 +507,40 @@ func ruleCopyClobber(c *Ctx) {
 						}
 					}
 				}
+				// clear(S) on a slice of the aliased array is a store to all of S
+				for _, bb := range fn.Blocks {
+					for _, in2 := range bb.Instrs {
+						cl := isBuiltinCall(in2, "clear")
+						if cl == nil || len(cl.Call.Args) != 1 {
+							continue
+						}
+						if !c.sameArray(stripSlices(cl.Call.Args[0]), dstBase, alias) {
+							continue
+						}
+						if !fi.instrReaches(cp, cl) {
+							continue
+						}
+						nAfter++
+						lo := linConst(0)
+						for v := cl.Call.Args[0]; ; {
+							sl, isSl := v.(*ssa.Slice)
+							if !isSl {
+								break
+							}
+							if sl.Low != nil {
+								lo = lo.add(fi.lin(sl.Low))
+							}
+							v = sl.X
+						}
+						hi := lo.add(fi.lenOf(cl.Call.Args[0]))
+						below := fi.proveAt(hi.sub(dLow), bb, copyFacts)
+						above := fi.proveAt(dLow.add(kMoved).sub(lo), bb, copyFacts)
+						if !below && !above {
+							okAfter = false
+							c.fail(key+":after", cl.Pos(), "after the live elements were moved to [%s, %s+%s) clear() wipes [%s, %s) of the same array, which is not proved to lie outside the moved region: moved live elements are overwritten", dLow, dLow, kMoved, lo, hi)
+						}
+					}
+				}
 				if okAfter {
 					c.ok(key+":after", cp.Pos(), "%d stores after the move stay outside the moved region [d, d+k)", nAfter)
 				}
@@ -740,6 +774,84 @@ func ruleOsapRange(c *Ctx) {
 				// and nothing else: the call must be reachable whenever that holds (single dominating condition besides n != 0, blk != nil)
 				c.check(ok2, key, call.Pos(), "edges are recomputed under W + n > start + len(edges)",
 					"the edge computation is not guarded by W + n > start + len(edges): stale or missing edges would be used for a block outside the covered range (facts: "+factStrings(fi.factsAt(b))+")")
+				// the covered range the guard reasons about must be the range that was really
+				// computed: the edge computation sets start = W and len(edges) = len(Data) − start
+				cfi := c.info(callee)
+				var startV Lin
+				haveStart := false
+				okLen := true
+				nEdgeStores := 0
+				detail := ""
+				for _, cb := range callee.Blocks {
+					for _, cin := range cb.Instrs {
+						st, isSt := cin.(*ssa.Store)
+						if !isSt {
+							continue
+						}
+						f := fieldOfAddr(st.Addr)
+						if f == nil {
+							continue
+						}
+						switch f.Name() {
+						case "start":
+							startV = cfi.lin(st.Val)
+							haveStart = true
+						}
+					}
+				}
+				var dataLen Lin
+				haveData := false
+				for _, cb := range callee.Blocks {
+					for _, cin := range cb.Instrs {
+						if ld, isLd := cin.(*ssa.UnOp); isLd && ld.Op == token.MUL && !haveData {
+							if f := fieldOfAddr(ld.X); f != nil && f.Name() == "Data" {
+								dataLen = cfi.lenOf(ld)
+								haveData = true
+							}
+						}
+					}
+				}
+				for _, cb := range callee.Blocks {
+					for _, cin := range cb.Instrs {
+						st, isSt := cin.(*ssa.Store)
+						if !isSt {
+							continue
+						}
+						if f := fieldOfAddr(st.Addr); f == nil || f.Name() != "edges" {
+							continue
+						}
+						if _, isIA := st.Addr.(*ssa.IndexAddr); isIA {
+							continue
+						}
+						nEdgeStores++
+						// forward loads of start to the value stored just before
+						lv := cfi.lenOf(st.Val).clone()
+						for a, co := range lv.t {
+							if ld, isLd := cfi.loadAtoms[a].(*ssa.UnOp); isLd {
+								if f := fieldOfAddr(ld.X); f != nil && f.Name() == "start" {
+									if us := cfi.uniqueReachingStore(ld); us != nil {
+										delete(lv.t, a)
+										lv = lv.addk(cfi.lin(us.Val), co)
+									}
+								}
+							}
+						}
+						if !haveStart || !haveData || !lv.eq(dataLen.sub(startV)) {
+							okLen = false
+							detail = fmt.Sprintf("len(edges) = %s", lv)
+						}
+					}
+				}
+				isW := false
+				if haveStart && len(startV.t) == 1 && startV.c == 0 {
+					for a, co := range startV.t {
+						if co == 1 && strings.HasSuffix(strings.SplitN(a, "@", 2)[0], ".W") {
+							isW = true
+						}
+					}
+				}
+				c.check(okLen && nEdgeStores > 0 && isW, fnName(callee)+":covered-range", callee.Pos(), "the edge computation sets start = W and len(edges) = len(Data) − start: the guard's covered range is the computed range",
+					"the edge table is not sized to the data actually present (start = W, len(edges) = len(Data) − start; "+detail+"): the recompute guard then believes later-written data to be covered and those positions get no (or stale) edges")
 			}
 		}
 	}
